@@ -41,6 +41,8 @@ CONSTANTS Shapes,      \* set of <<H,W>>: frames of the 2D masks explored (every
           DerOps,      \* the derivations << code, a, b, c >>: 1 = add the scalar a, 2 = multiply by the scalar a,
                        \*   3 = item assignment in place: position a (0-based) := b (1D) / (b, c) (2D), 4 = slice [a:]
           ProjShapes,  \* frames of the 2D grids handed to project_grid
+          Families,    \* which families of instances this run explores ("wrap", "project", "transform", "reloc", "tiny"): TLC's
+                       \*   initial-state phase is single-threaded and superlinear, large bounds are split over several runs
           AngleQs      \* profile angles as multiples of 90 degrees (-2 .. 5 covers every quadrant and beyond a full turn);
                        \*   99 = the profile has no angle attribute, 98 = a numeric angle picked by the harness
 
@@ -248,48 +250,43 @@ NoPar == << 0, 0, 0, 0 >>
 Mk(api, gk, rk, lst, h, w, u, par, depth, flag) ==
     [api |-> api, gk |-> gk, rk |-> rk, lst |-> lst, h |-> h, w |-> w, u |-> u, par |-> par, depth |-> depth, flag |-> flag]
 
+\* The families of instances.  (One definition and one disjunct of Init per family: TLC enumerates them one after the other;
+\* a \cup of large sets would test every element of one side for membership in the other.)
 \* the three wrapping decorators on every kind of grid
-WrapInst ==
-    UNION { UNION { { Mk(a, "g2d", ResultKindOf(a), l, sh[1], sh[2], u, NoPar, 0, FALSE) : u \in Masks(sh) }
-                    : sh \in Shapes } : a \in {"to_array", "to_grid", "to_vector_yx"}, l \in BOOLEAN }
-    \cup { Mk(a, "irr", ResultKindOf(a), l, 1, n, AllCells(n), NoPar, 0, FALSE)
-             : a \in {"to_array", "to_grid", "to_vector_yx"}, l \in BOOLEAN, n \in Lens }
-    \cup UNION { { Mk(a, "g1d", ResultKindOf(a), l, 1, n, u, NoPar, 0, FALSE) : u \in Masks(<<1, n>>) }
-                 : a \in {"to_array", "to_grid"}, l \in BOOLEAN, n \in Lens }
+WrapG2D == UNION { UNION { { Mk(a, "g2d", ResultKindOf(a), l, sh[1], sh[2], u, NoPar, 0, FALSE) : u \in Masks(sh) }
+                           : sh \in Shapes } : a \in {"to_array", "to_grid", "to_vector_yx"}, l \in BOOLEAN }
+WrapIrr == { Mk(a, "irr", ResultKindOf(a), l, 1, n, AllCells(n), NoPar, 0, FALSE)
+               : a \in {"to_array", "to_grid", "to_vector_yx"}, l \in BOOLEAN, n \in Lens }
+WrapG1D == UNION { { Mk(a, "g1d", ResultKindOf(a), l, 1, n, u, NoPar, 0, FALSE) : u \in Masks(<<1, n>>) }
+                   : a \in {"to_array", "to_grid"}, l \in BOOLEAN, n \in Lens }
 \* project_grid: par = << s, cy, cx, aq >>, aq the profile angle in quarter turns (AngleQs)
-ProjectInst ==
-    UNION { UNION { { Mk("project", "g2d", "values", FALSE, sh[1], sh[2], u, << g[1], g[2], g[3], aq >>, 0, FALSE) : u \in Masks(sh) }
-                    : sh \in ProjShapes } : g \in PGeoms, aq \in AngleQs }
-    \cup { Mk("project", "irr", rk, FALSE, 1, n, AllCells(n), NoPar, 0, FALSE) : rk \in {"values", "pairs"}, n \in Lens }
-    \cup UNION { { Mk("project", "g1d", "values", FALSE, 1, n, u, << 0, 0, 0, aq >>, 0, FALSE) : u \in Masks(<<1, n>>) }
-                 : n \in Lens, aq \in AngleQs }
-TransformInst ==
-    UNION { UNION { { Mk("transform", "g2d", "values", FALSE, sh[1], sh[2], u, NoPar, d, f) : u \in Masks(sh) }
-                    : sh \in MidShapes } : d \in Depths, f \in BOOLEAN }
-    \cup { Mk("transform", gk, "values", FALSE, 1, n, AllCells(n), NoPar, d, f)
-             : gk \in {"irr", "nd"}, n \in Lens, d \in Depths, f \in BOOLEAN }
+ProjG2D == UNION { UNION { { Mk("project", "g2d", "values", FALSE, sh[1], sh[2], u, << g[1], g[2], g[3], aq >>, 0, FALSE) : u \in Masks(sh) }
+                           : sh \in ProjShapes } : g \in PGeoms, aq \in AngleQs }
+ProjIrr == { Mk("project", "irr", rk, FALSE, 1, n, AllCells(n), NoPar, 0, FALSE) : rk \in {"values", "pairs"}, n \in Lens }
+ProjG1D == UNION { { Mk("project", "g1d", "values", FALSE, 1, n, u, << 0, 0, 0, aq >>, 0, FALSE) : u \in Masks(<<1, n>>) }
+                   : n \in Lens, aq \in AngleQs }
+TransG2D == UNION { UNION { { Mk("transform", "g2d", "values", FALSE, sh[1], sh[2], u, NoPar, d, f) : u \in Masks(sh) }
+                            : sh \in MidShapes } : d \in Depths, f \in BOOLEAN }
+TransFlat == { Mk("transform", gk, "values", FALSE, 1, n, AllCells(n), NoPar, d, f)
+                 : gk \in {"irr", "nd"}, n \in Lens, d \in Depths, f \in BOOLEAN }
 \* radial minimum: grids around the centre, and every single lattice point as a one-point coordinate set
-RelocInst ==
-    UNION { UNION { { Mk(a, "g2d", ResultKindOf(a), FALSE, sh[1], sh[2], u, g, 1, FALSE) : u \in Masks(sh) }
-                    : sh \in MidShapes } : g \in Geoms, a \in {"reloc", "stack_array", "stack_grid"} }
-    \cup { Mk("reloc", gk, "pairs", FALSE, 1, 1, AllCells(1), << 0, y, x, R >>, 0, FALSE)
-             : gk \in {"irr", "nd"}, y \in Lattice, x \in Lattice, R \in { g[4] : g \in Geoms } }
+RelocG2D == UNION { UNION { { Mk(a, "g2d", ResultKindOf(a), FALSE, sh[1], sh[2], u, g, 1, FALSE) : u \in Masks(sh) }
+                            : sh \in MidShapes } : g \in Geoms, a \in {"reloc", "stack_array", "stack_grid"} }
+RelocPoints == { Mk("reloc", gk, "pairs", FALSE, 1, 1, AllCells(1), << 0, y, x, R >>, 0, FALSE)
+                   : gk \in {"irr", "nd"}, y \in Lattice, x \in Lattice, R \in { g[4] : g \in Geoms } }
 \* a coordinate eps*(dy,dx): par = << -e, dy, dx, R >> (e the index of eps); as a one-point set, and as the central pixel
 \* of a small 2D grid (pixel scale 2 units, grid and profile centred on the origin)
-TinyInst ==
-    { Mk("reloc", gk, "pairs", FALSE, 1, 1, AllCells(1), << -e, d[1], d[2], R >>, 0, FALSE)
-        : gk \in {"irr", "nd"}, e \in TinyEps, d \in TinyDirs, R \in { g[4] : g \in Geoms } }
-    \cup UNION { UNION { { Mk(a, "g2d", ResultKindOf(a), FALSE, sh[1], sh[2], u, << -e, d[1], d[2], R >>, 1, FALSE) : u \in Masks(sh) }
-                         : sh \in TinyShapes } : a \in {"reloc", "stack_array", "stack_grid"}, e \in TinyEps, d \in TinyDirs,
-                                                  R \in { g[4] : g \in Geoms } }
-Instances == WrapInst \cup ProjectInst \cup TransformInst \cup RelocInst \cup TinyInst
+TinyPoints == { Mk("reloc", gk, "pairs", FALSE, 1, 1, AllCells(1), << -e, d[1], d[2], R >>, 0, FALSE)
+                  : gk \in {"irr", "nd"}, e \in TinyEps, d \in TinyDirs, R \in { g[4] : g \in Geoms } }
+TinyG2D == UNION { UNION { { Mk(a, "g2d", ResultKindOf(a), FALSE, sh[1], sh[2], u, << -e, d[1], d[2], R >>, 1, FALSE) : u \in Masks(sh) }
+                           : sh \in TinyShapes } : a \in {"reloc", "stack_array", "stack_grid"}, e \in TinyEps, d \in TinyDirs,
+                                                    R \in { g[4] : g \in Geoms } }
 
-\* (one disjunct per family: TLC enumerates them one after the other instead of normalising one huge union)
-Init == /\ \/ inst \in WrapInst
-           \/ inst \in ProjectInst
-           \/ inst \in TransformInst
-           \/ inst \in RelocInst
-           \/ inst \in TinyInst
+Init == /\ \/ "wrap" \in Families /\ (inst \in WrapG2D \/ inst \in WrapIrr \/ inst \in WrapG1D)
+           \/ "project" \in Families /\ (inst \in ProjG2D \/ inst \in ProjIrr \/ inst \in ProjG1D)
+           \/ "transform" \in Families /\ (inst \in TransG2D \/ inst \in TransFlat)
+           \/ "reloc" \in Families /\ (inst \in RelocG2D \/ inst \in RelocPoints)
+           \/ "tiny" \in Families /\ (inst \in TinyPoints \/ inst \in TinyG2D)
         /\ phase = "call"
         /\ obs = << >>
         /\ grid = BuiltTerms(Cardinality(inst.u))
